@@ -116,6 +116,30 @@ CLAIMED = {
         note='Trusted: rustc MIR, syn; python re as the reading of the interner regex literal.',
         technique='static analysis: who-reads, must-pass-through (avoiding-path reachability), call-graph may-allocate closure, syntax-tree shape rules',
         design='2/C03'),
+    'C04': dict(
+        level='other',
+        text='Structural necessary conditions of the static checker decided on the syntax tree for every site: calls through function-typed '
+             'values are arity- and argument-checked for both callee kinds; both declared-type checks reject a non-empty binding; every zip of '
+             'two runtime-length lists in the type relations and call/construct typing is preceded by a length test on the same two lists (or '
+             'listed with a confirmed reason) and its two sides iterate in the same direction; the hand-written type equality reads every '
+             'typing-relevant field (incl. the return type of function types); the case tables of bind_in_assignment / common_type / eq agree '
+             'with the confirmed table. These rule out the accept-too-much failures (truncated comparison, ignored component, swapped '
+             'component). NOT decided: completeness (every assignable program accepted) and least-common-type optimality.',
+        note='Trusted: syn parse; the reasons in ZIP_OK / PAIR_TABLE_REASONS (rules/c04.py) were confirmed by reading.',
+        technique='static analysis: syntax-tree rules (guard-before-zip, field coverage of hand-written equality, sibling case-table agreement)',
+        design='2/C04'),
+    'C05': dict(
+        level='other',
+        text='Order-independence and ambiguity detection of resolve_overload decided as dataflow facts on its syntax tree: the candidate loop '
+             'carries state across iterations only by pushing to the tier vectors / the failure list; its only early exit is the documented '
+             'short-circuit stub; after the loop an element is taken only from a singleton tier, more than one is an AmbiguousOverload error, '
+             'tiers are consulted in rank order and the function ends in NoOverload; the tier of a candidate is a function of (is_generic, '
+             'is_unknown) and is_unknown of the argument types only; own overloads are appended before the parent\'s and never indexed by '
+             'position. Hence the outcome depends only on the multiset of matching candidates. Known finding: dynamic candidates share the '
+             'generic tier (R05.6). NOT decided: that spec.bind matches exactly the right candidates (C04).',
+        note='Trusted: syn parse. One known finding listed in known_findings.json.',
+        technique='static analysis: loop-carried-state and early-exit analysis, post-loop decision-sequence extraction on the syntax tree',
+        design='2/C05'),
 }
 
 NA_REASONS = {
